@@ -705,6 +705,9 @@ class _ExprNorm(ast.NodeTransformer):
     def visit_Call(self, node):
         self.generic_visit(node)
         f = u(node.func)
+        # typing.cast(T, x) is x
+        if f in ("cast", "typing.cast") and len(node.args) == 2 and not node.keywords:
+            return node.args[1]
         # f(*(a, *b)) -> f(a, *b)
         if any(isinstance(a, ast.Starred) and isinstance(a.value, (ast.Tuple, ast.List)) for a in node.args):
             args = []
